@@ -1,5 +1,6 @@
 // C10 - column orderings are permutations; elimination tree exact and postordered.
 #include "drive.hpp"
+#include <set>
 
 namespace vf {
 
@@ -41,6 +42,21 @@ static void run_d(Choice &c, Ctx &cx)
         pat.assign(n, {});
         for (int j = 0; j < m; ++j) for (int i : pt[j]) pat[i].push_back(j);
         family += "(wide)";
+    }
+    // Orderings treat "dense" rows and the columns they leave empty separately (COLAMD: a row with more than
+    // max(16, 10*sqrt(ncol)) entries, which needs ncol > 100): a family of larger patterns with one or two full rows, a sparse
+    // band, some columns whose only entries lie in the full rows and some empty columns.
+    if (c.chance(14)) {
+        n = m = 101 + (int)c.below(60); wide = false; family = "dense-rows(n>100)";
+        pat.assign(n, {});
+        int d1 = (int)c.below((unsigned)n), d2 = c.chance(128) ? (int)c.below((unsigned)n) : -1;
+        for (int j = 0; j < n; ++j) {
+            unsigned kind = c.below(8);   // 0: only the dense rows, 1: empty column, otherwise band entries as well
+            std::set<int> rows;
+            if (kind != 1) { rows.insert(d1); if (d2 >= 0) rows.insert(d2); }
+            if (kind >= 2) { rows.insert(j); if (c.chance(128)) rows.insert((j + 1) % n); if (c.chance(64)) rows.insert((int)c.below((unsigned)n)); }
+            pat[j].assign(rows.begin(), rows.end());
+        }
     }
     bool square = (m == n);
     colperm_t cp = gen_colperm(c, square);
